@@ -349,6 +349,10 @@ def run_case(prop, name, params, budget=None):
             elif o.kind == "eq":
                 try:
                     d, d1, d2 = S.cross_diff(o.impl, o.ref, rcache)
+                except z3.Z3Exception as e:
+                    res["inconclusive"] += 1
+                    res["notes"].append(f"normaliser gave up ({e}): {o.label}")
+                    continue
                 except ValueError:
                     # outside the rational fragment (uninterpreted functions, If): ask z3 directly
                     d, d1, d2 = z3.simplify(o.impl - o.ref), z3.RealVal(1), z3.RealVal(1)
